@@ -168,3 +168,59 @@ def norm_values(prog, cname, tree, rng):
         dom = refsem.path_domain(P, cname, p)
         out.append((p, dom[rng.randrange(len(dom))]))
     return out
+
+
+def dist_entries(rng, w, signed=False, allow_zero=True):
+    lo, hi = (-(1 << (w - 1)), (1 << (w - 1)) - 1) if signed else (0, (1 << w) - 1)
+    n = rng.randint(2, 5)
+    pts = sorted(rng.sample(range(lo, hi + 1), min(hi - lo + 1, 2 * n)))
+    ents = []
+    i = 0
+    while i < len(pts) and len(ents) < n:
+        if i + 1 < len(pts) and rng.random() < 0.4:
+            ents.append({"v": [pts[i], pts[i + 1]], "w": rng.choice([1, 2, 3, 5, 8])})
+            i += 2
+        else:
+            ents.append({"v": pts[i], "w": rng.choice([1, 2, 3, 5, 8])})
+            i += 1
+    if allow_zero and len(ents) >= 2 and rng.random() < 0.6:
+        ents[rng.randrange(len(ents))]["w"] = 0
+    if all(e["w"] == 0 for e in ents):
+        ents[0]["w"] = 1
+    return ents
+
+
+def mixed_program(st, small=True):
+    """program of one of several kinds (flat / object tree / lists / flat with dist and
+    solve_order); returns (prog, generator, top class name)"""
+    rng = st.prog
+    kind = rng.choice(["flat", "flat", "tree", "list", "order", "order"])
+    if kind == "tree":
+        prog, g = tree_program(st, cfg={"loose": 0.7, "max_stmts": 2})
+        return prog, g, prog["top"], kind
+    if kind == "list":
+        cfg = {"widths": [2, 3], "signed": rng.random() < 0.5, "depth": 1, "max_stmts": 3, "max_blocks": 2,
+               "ps": False, "shifts": False, "divmod": False, "arith": ["+", "-"],
+               "stmts": ["expr", "expr", "in"], "nonrand": True}
+        g = progs.ListGen(rng, cfg)
+        prog = g.list_program(gates=("randsz-aggregate",))
+        return prog, g, "K0", kind
+    prog, g, cfg = flat_program(st, small, {"enums": rng.random() < 0.3})
+    prog["top"] = "K0"
+    if kind == "order":
+        k0 = prog["classes"][0]
+        rf = [f for f in k0["fields"] if f["k"] == "s" and f.get("r")]
+        stmts = []
+        if len(rf) >= 2:
+            a, b = rng.sample(rf, 2)
+            stmts.append({"t": "solve_order", "before": [[a["n"]]], "after": [[b["n"]]]})
+            if len(rf) >= 3 and rng.random() < 0.5:
+                c = [f for f in rf if f is not a and f is not b][0]
+                stmts.append({"t": "solve_order", "before": [[b["n"]]], "after": [[c["n"]]]})
+        if rf and rng.random() < 0.8:
+            f = rng.choice(rf)
+            if f["w"] <= 8:
+                stmts.append({"t": "dist", "e": progs.F(f["n"]), "w": dist_entries(rng, f["w"], f["s"])})
+        if stmts:
+            k0["blocks"].insert(0, {"n": "c_ord", "stmts": stmts})
+    return prog, g, "K0", kind
